@@ -23,7 +23,7 @@ _UNDEF = (
 _CACHE = (
     "                    # HACK: see note in above request handler for EventQueueGet\n"
     "                    req_ack_id = llsd.parse_xml(flow.request.content)[\"ack\"]\n"
-    "                    eq_manager.cache_last_poll_response(req_ack_id, parsed_eq_resp)\n"
+    "                    eq_manager.cache_last_poll_response(req_ack_id, parsed_eq_resp, cap_data.base_url)\n"
 )
 _EQ_BRANCH = (
     "                parsed_eq_resp = llsd.parse_xml(flow.response.content)\n"
@@ -52,7 +52,7 @@ _EQ_HELPER = (
     "            if from_sim and not outgoing:\n"
     "                body = None\n"
     "            ack = llsd.parse_xml(the_flow.request.content)[\"ack\"]\n"
-    "            manager.cache_last_poll_response(ack, body)\n"
+    "            manager.cache_last_poll_response(ack, body, caps.base_url)\n"
     "        the_flow.response.content = llsd.format_xml(body)\n"
     "\n"
 )
@@ -90,7 +90,7 @@ _B2_FIXED = (
     "                    # Serialize before remembering the response, something we can't\n"
     "                    # even write out must never end up in the replay cache.\n"
     "                    flow.response.content = llsd.format_xml(parsed_eq_resp)\n"
-    "                    eq_manager.cache_last_poll_response(req_ack_id, parsed_eq_resp)\n"
+    "                    eq_manager.cache_last_poll_response(req_ack_id, parsed_eq_resp, cap_data.base_url)\n"
     "                else:\n"
     "                    flow.response.content = llsd.format_xml(parsed_eq_resp)\n"
 )
@@ -131,7 +131,7 @@ _EQ_HELPER_FX = (
     "                body = None\n"
     "            ack = llsd.parse_xml(the_flow.request.content)[\"ack\"]\n"
     "            the_flow.response.content = llsd.format_xml(body)\n"
-    "            manager.cache_last_poll_response(ack, body)\n"
+    "            manager.cache_last_poll_response(ack, body, caps.base_url)\n"
     "        else:\n"
     "            the_flow.response.content = llsd.format_xml(body)\n"
     "\n"
@@ -140,6 +140,15 @@ _B3_TAIL = (
     "        handle_event = AddonManager.handle_eq_event(session, region, event)\n"
     "        # True: addon handled the event and didn't want it sent to the viewer\n"
     "        return handle_event is True\n"
+)
+
+LLSDSER = "hippolyzer/lib/base/message/llsd_msg_serializer.py"
+_C21_FIXED = (
+    "            if tmpl_var.type in _BINARY_PACKED and not isinstance(val, bytes):\n"
+    "                # Only the <binary> form needs unpacking. Other implementations (OpenSim) write\n"
+    "                # the values that fit as plain LLSD integers / strings, those are usable as-is.\n"
+    "                continue\n"
+    "            block[tmpl_var.name] = LLSDDataPacker.unpack(val, tmpl_var.type)\n"
 )
 
 VARIANTS = [
@@ -192,7 +201,7 @@ VARIANTS = [
          {"file": HEM, "old": "                    if old_events and not new_events:\n", "new": "                    if all_swallowed:\n"},
      ]},
     {"name": "R3 cache refuses the undef ack (seed 2)", "file": REG, "expect": "C17.R3",
-     "old": "        if self._last_ack == req_ack:\n", "new": "        if req_ack is not None and self._last_ack == req_ack:\n"},
+     "old": "        if self._last_ack == (eq_url, req_ack):\n", "new": "        if req_ack is not None and self._last_ack == (eq_url, req_ack):\n"},
     {"name": "R3 cache keyed by the response id", "file": HEM, "expect": "C17.R3",
      "old": "                    req_ack_id = llsd.parse_xml(flow.request.content)[\"ack\"]\n",
      "new": "                    req_ack_id = llsd.parse_xml(flow.response.content)[\"id\"]\n"},
@@ -201,24 +210,24 @@ VARIANTS = [
     {"name": "R3 undef replacement ignores the outgoing list", "file": HEM, "expect": "C17.R3",
      "old": "                    if old_events and not new_events:\n", "new": "                    if old_events:\n"},
     {"name": "R3 cache fields swapped", "file": REG, "expect": "C17.R3",
-     "old": "        self._last_ack = req_ack\n        self._last_payload = payload\n",
-     "new": "        self._last_ack = payload\n        self._last_payload = req_ack\n"},
+     "old": "        self._last_ack = (eq_url, req_ack)\n        self._last_payload = payload\n",
+     "new": "        self._last_ack = (eq_url, payload)\n        self._last_payload = req_ack\n"},
     {"name": "R3 replay cache written from the request handler", "file": HEM, "expect": "C17.R3",
-     "old": "            cached_resp = eq_manager.get_cached_poll_response(req_ack_id)\n",
-     "new": "            cached_resp = eq_manager.get_cached_poll_response(req_ack_id)\n            eq_manager._last_ack = None\n"},
+     "old": "            cached_resp = eq_manager.get_cached_poll_response(req_ack_id, cap_data.base_url)\n",
+     "new": "            cached_resp = eq_manager.get_cached_poll_response(req_ack_id, cap_data.base_url)\n            eq_manager._last_ack = None\n"},
     {"name": "R3 cached payload other than the serialised object", "file": HEM, "expect": "C17.R3",
-     "old": "eq_manager.cache_last_poll_response(req_ack_id, parsed_eq_resp)",
-     "new": "eq_manager.cache_last_poll_response(req_ack_id, {\"events\": new_events})"},
+     "old": "eq_manager.cache_last_poll_response(req_ack_id, parsed_eq_resp, cap_data.base_url)",
+     "new": "eq_manager.cache_last_poll_response(req_ack_id, {\"events\": new_events}, cap_data.base_url)"},
     {"name": "P R3 emptiness flag computed after the merge", "file": HEM, "expect": "silent",
      "old": "                    if old_events and not new_events:\n",
      "new": "                    all_swallowed = bool(old_events) and not new_events\n                    if all_swallowed:\n"},
     {"name": "P R3 early-return form of the cache lookup", "file": REG, "expect": "silent",
-     "old": "        if self._last_ack == req_ack:\n            return self._last_payload\n        return None\n",
-     "new": "        if self._last_ack != req_ack:\n            return None\n        return self._last_payload\n"},
+     "old": "        if self._last_ack == (eq_url, req_ack):\n            return self._last_payload\n        return None\n",
+     "new": "        if self._last_ack != (eq_url, req_ack):\n            return None\n        return self._last_payload\n"},
     {"name": "P R3 undef responses not cached (request side ignores them anyway)", "file": HEM, "expect": "silent",
-     "old": "                    eq_manager.cache_last_poll_response(req_ack_id, parsed_eq_resp)\n",
+     "old": "                    eq_manager.cache_last_poll_response(req_ack_id, parsed_eq_resp, cap_data.base_url)\n",
      "new": "                    if parsed_eq_resp is not None:\n"
-            "                        eq_manager.cache_last_poll_response(req_ack_id, parsed_eq_resp)\n"},
+            "                        eq_manager.cache_last_poll_response(req_ack_id, parsed_eq_resp, cap_data.base_url)\n"},
     # ---- R4 region registration
     {"name": "R4 found region falls through to append", "file": STATE, "expect": "C17.R4",
      "old": "                if handle:\n                    region.handle = handle\n                return region\n",
@@ -375,12 +384,12 @@ VARIANTS = [
      "new": "        probe = llsd.format_xml(event)\n        del probe\n        self._queued_events.append(event)\n"},
     {"name": "R3 response cached before it is serialised (fix reverted)", "file": HEM, "expect": "C17.R3",
      "old": _B2_FIXED,
-     "new": "                    eq_manager.cache_last_poll_response(req_ack_id, parsed_eq_resp)\n"
+     "new": "                    eq_manager.cache_last_poll_response(req_ack_id, parsed_eq_resp, cap_data.base_url)\n"
             "                flow.response.content = llsd.format_xml(parsed_eq_resp)\n"},
     {"name": "P R3 serialised body held in a local until it is cached", "file": HEM, "expect": "silent",
      "old": _B2_FIXED,
      "new": "                    body = llsd.format_xml(parsed_eq_resp)\n"
-            "                    eq_manager.cache_last_poll_response(req_ack_id, parsed_eq_resp)\n"
+            "                    eq_manager.cache_last_poll_response(req_ack_id, parsed_eq_resp, cap_data.base_url)\n"
             "                    flow.response.content = body\n"
             "                else:\n"
             "                    flow.response.content = llsd.format_xml(parsed_eq_resp)\n"},
@@ -422,7 +431,7 @@ VARIANTS = [
      "new": "                    # HACK: see note in above request handler for EventQueueGet\n"
             "                    req_ack_id = llsd.parse_xml(flow.request.content)[\"ack\"]\n"
             "                    flow.response.content = llsd.format_xml(parsed_eq_resp)\n"
-            "                    eq_manager.cache_last_poll_response(req_ack_id, parsed_eq_resp)\n"
+            "                    eq_manager.cache_last_poll_response(req_ack_id, parsed_eq_resp, cap_data.base_url)\n"
             + _UNDEF +
             "                else:\n                    flow.response.content = llsd.format_xml(parsed_eq_resp)\n"},
     {"name": "R4 register_region called for every event", "file": HEM, "expect": "C17.R4",
@@ -437,6 +446,28 @@ VARIANTS = [
          {"file": HEM, "old": _EQ_BRANCH_FX, "new": "                self._rewrite_eq_response(flow, cap_data, region)\n"},
          {"file": HEM, "old": "    def _handle_login_flow(self, flow: HippoHTTPFlow):\n",
           "new": _EQ_HELPER_FX + "    def _handle_login_flow(self, flow: HippoHTTPFlow):\n"},
+     ]},
+    # ---- audit round 2 (reverts are inapplicable until the fix is committed)
+    {"name": "R1 deserialize unpacks whatever form the value has (audit-2 fix reverted)", "file": LLSDSER, "expect": "C17.R1",
+     "old": _C21_FIXED, "new": "            block[tmpl_var.name] = LLSDDataPacker.unpack(val, tmpl_var.type)\n"},
+    {"name": "P R1 deserialize unpacks under the positive isinstance test", "file": LLSDSER, "expect": "silent",
+     "old": _C21_FIXED,
+     "new": "            if tmpl_var.type not in _BINARY_PACKED or isinstance(val, bytes):\n"
+            "                block[tmpl_var.name] = LLSDDataPacker.unpack(val, tmpl_var.type)\n"},
+    {"name": "R3 replay cache keyed by the ack alone (audit-2 fix reverted)", "expect": "C17.R3",
+     "edits": [
+         {"file": REG, "old": "        self._last_ack = (eq_url, req_ack)\n", "new": "        self._last_ack = req_ack\n"},
+         {"file": REG, "old": "        if self._last_ack == (eq_url, req_ack):\n", "new": "        if self._last_ack == req_ack:\n"},
+     ]},
+    {"name": "R3 lookup side does not say which queue is polled", "file": HEM, "expect": "C17.R3",
+     "old": "eq_manager.get_cached_poll_response(req_ack_id, cap_data.base_url)",
+     "new": "eq_manager.get_cached_poll_response(req_ack_id)"},
+    {"name": "P R3 queue url first, keyword arguments at the call sites", "expect": "silent",
+     "edits": [
+         {"file": HEM, "old": "eq_manager.get_cached_poll_response(req_ack_id, cap_data.base_url)",
+          "new": "eq_manager.get_cached_poll_response(req_ack_id, eq_url=cap_data.base_url)"},
+         {"file": HEM, "old": "eq_manager.cache_last_poll_response(req_ack_id, parsed_eq_resp, cap_data.base_url)",
+          "new": "eq_manager.cache_last_poll_response(req_ack_id, parsed_eq_resp, eq_url=cap_data.base_url)"},
      ]},
     # ---- documented limit
 ]
